@@ -87,6 +87,9 @@ pub fn pairs_str<'a>(it: impl Iterator<Item = (usize, usize)>) -> String {
 
 /// Silence the default panic hook (panics are caught and reported as outcomes).
 pub fn quiet_panics() {
+    if std::env::var_os("VERIF_TRACE").is_some() {
+        return;
+    }
     std::panic::set_hook(Box::new(|_| {}));
 }
 
